@@ -66,6 +66,15 @@ func VerifMisuseLifecycle() {
 	verifAssert(err == nil, "begin")
 	pg, perr := tx.Page(id0)
 	verifAssert(perr == nil, "page access in an active transaction")
+	switch verifChoose(3) {
+	case 1: // the page contents were read while the transaction was active
+		_, berr := pg.Bytes()
+		verifAssert(berr == nil, "Bytes in an active transaction")
+	case 2: // or loaded / written
+		if !readonly {
+			verifAssert(pg.Load() == nil, "Load in an active write transaction")
+		}
+	}
 	if !readonly && verifBool("touch") {
 		np, aerr := tx.Alloc()
 		verifAssert(aerr == nil, "alloc")
